@@ -450,3 +450,55 @@ Definition may_promote (c : wcase) : bool :=
 Definition wcase_oracle (c : wcase) : bool :=
   opt_bytes_eqb (w_obs_final c) (w_old_final c)
   || (may_promote c && opt_bytes_eqb (w_obs_final c) (Some (intended c))).
+
+(* (4) method cases: EVERY key-taking method of LocalBackend first applies validatePath and then
+   touches only the returned path (and "<that>.part" where the source says so).  The harness
+   plants [mc_final0] / [mc_part0] at the resolved path inside the root and canaries outside, then
+   calls Read, ReadTo, ReadToAt, StatFile, Exists, List, Delete, Write "W", WriteReader "RR",
+   (plants .part = "P"), AppendReader "A" with appendSize 1, in this order. *)
+Record mcase := { mc_root : list bytes; mc_key : bytes; mc_final0 : option bytes; mc_part0 : option bytes;
+                  mc_read : option bytes; mc_readto : option bytes; mc_readat : option bytes;
+                  mc_stat : option Z; mc_exists : option bool;
+                  mc_del_ok : bool; mc_del_final : option bytes; mc_del_part : option bytes;
+                  mc_write_ok : bool; mc_after_write : option bytes;
+                  mc_wr_ok : bool; mc_after_wr : option bytes;
+                  mc_app_ok : bool; mc_after_app : option bytes; mc_after_app_part : option bytes;
+                  mc_list_ok : bool; mc_leaked : bool; mc_outside_changed : bool }.
+
+Definition opt_z_eqb (a b : option Z) : bool :=
+  match a, b with Some x, Some y => (x =? y)%Z | None, None => true | _, _ => false end.
+Definition opt_bool_eqb (a b : option bool) : bool :=
+  match a, b with Some x, Some y => Bool.eqb x y | None, None => true | _, _ => false end.
+
+Definition mcase_agrees (c : mcase) : bool :=
+  match validate_path (render (mc_root c)) (mc_key c) with
+  | None =>
+      (* rejected key: every method fails and nothing is touched *)
+      opt_bytes_eqb (mc_read c) None && opt_bytes_eqb (mc_readto c) None && opt_bytes_eqb (mc_readat c) None
+      && opt_z_eqb (mc_stat c) None && opt_bool_eqb (mc_exists c) None
+      && negb (mc_del_ok c) && negb (mc_write_ok c) && negb (mc_wr_ok c) && negb (mc_app_ok c)
+  | Some _ =>
+      let f0 := (match mc_final0 c with Some b => [(p_final, b)] | None => [] end)
+                ++ (match mc_part0 c with Some b => [(part_path p_final, b)] | None => [] end) in
+      let f1 := run f0 (delete_steps p_final) in
+      let f2 := run f1 (write_steps p_dir p_tmp p_final [[87]]) in                                   (* "W" *)
+      let f3 := run f2 (write_reader_steps p_dir p_final {| r_chunks := [[82; 82]]; r_clean := true |}) in   (* "RR" *)
+      let f3' := run f3 [SCreateTrunc (part_path p_final); SAppend (part_path p_final) [80]] in      (* plant "P" *)
+      let ap := append_reader_steps f3' p_final {| r_chunks := [[65]]; r_clean := true |} 1 in       (* "A" *)
+      let f4 := run f3' (fst ap) in
+      opt_bytes_eqb (mc_read c) (fs_get f0 p_final) && opt_bytes_eqb (mc_readto c) (fs_get f0 p_final)
+      && opt_bytes_eqb (mc_readat c) (read_to_at f0 p_final)
+      && opt_z_eqb (mc_stat c) (Some (stat_file f0 p_final))
+      && opt_bool_eqb (mc_exists c) (Some (match fs_get f0 p_final with Some _ => true | None => false end))
+      && mc_del_ok c && opt_bytes_eqb (mc_del_final c) (fs_get f1 p_final)
+      && opt_bytes_eqb (mc_del_part c) (fs_get f1 (part_path p_final))
+      && mc_write_ok c && opt_bytes_eqb (mc_after_write c) (fs_get f2 p_final)
+      && mc_wr_ok c && opt_bytes_eqb (mc_after_wr c) (fs_get f3 p_final)
+      && Bool.eqb (mc_app_ok c) (snd ap) && opt_bytes_eqb (mc_after_app c) (fs_get f4 p_final)
+      && opt_bytes_eqb (mc_after_app_part c) (fs_get f4 (part_path p_final))
+  end.
+
+(* confinement oracle on the implementation: nothing outside the root was read (no canary bytes
+   or canary size returned), created, changed or removed, and listings stay under the root *)
+Definition mcase_oracle (c : mcase) : bool :=
+  negb (mc_leaked c) && negb (mc_outside_changed c) && mc_list_ok c.
